@@ -172,6 +172,26 @@ package analyzer
 //@   ensures result != nil && fresh(result) && (forall k string :: {result[k]} result[k] <==> declAcc(journal, k))
 //@ trusted collectDeclaredCommodities
 //@   ensures result != nil && fresh(result) && (forall k string :: {result[k]} result[k] <==> declCom(journal, k))
+// What the two declared-set collectors compute (obligations of their bodies; the callers keep the naming contract above):
+// exactly the names of the account / commodity directives of the journal.
+//@ specdef dAcc(ds []ast.Directive, i int, k string) bool := ite(i <= 0, false, dAcc(ds, i - 1, k) || (typeis(ds[i - 1], "ast.AccountDirective") && as(ds[i - 1], "ast.AccountDirective").Account.Name == k))
+//@ specdef dCom(ds []ast.Directive, i int, k string) bool := ite(i <= 0, false, dCom(ds, i - 1, k) || (typeis(ds[i - 1], "ast.CommodityDirective") && as(ds[i - 1], "ast.CommodityDirective").Commodity.Symbol == k))
+//@ bodycheck collectDeclaredAccounts
+//@   props C18
+//@   requires journal != nil
+//@   ensures [C18:declared_accounts_are_the_directives] result != nil && fresh(result) && (forall k string :: {result[k]} result[k] <==> dAcc(journal.Directives, len(journal.Directives), k))
+//@   loop 1 invariant 0 - 1 <= rangeindex && rangeindex <= len(journal.Directives) - 1 && declared != nil && fresh(declared)
+//@   loop 1 invariant forall k string :: {declared[k]} {dAcc(journal.Directives, rangeindex + 1, k)} declared[k] <==> dAcc(journal.Directives, rangeindex + 1, k)
+//@   loop 1 exhaustive
+//@   loop 1 decreases len(journal.Directives) - rangeindex
+//@ bodycheck collectDeclaredCommodities
+//@   props C18
+//@   requires journal != nil
+//@   ensures [C18:declared_commodities_are_the_directives] result != nil && fresh(result) && (forall k string :: {result[k]} result[k] <==> dCom(journal.Directives, len(journal.Directives), k))
+//@   loop 1 invariant 0 - 1 <= rangeindex && rangeindex <= len(journal.Directives) - 1 && declared != nil && fresh(declared)
+//@   loop 1 invariant forall k string :: {declared[k]} {dCom(journal.Directives, rangeindex + 1, k)} declared[k] <==> dCom(journal.Directives, rangeindex + 1, k)
+//@   loop 1 exhaustive
+//@   loop 1 decreases len(journal.Directives) - rangeindex
 //@ trusted CollectTagValues
 //@   ensures fresh(result)
 //@ trusted CollectDates
@@ -183,11 +203,41 @@ package analyzer
 //@   ensures result != nil && fresh(result)
 //@   ensures forall k string :: {result[k]} result[k] == acJ(journal, k)
 //@   ensures forall k string :: {has(result, k)} has(result, k) <==> acJ(journal, k) > 0
+// What CollectAccountCounts computes (obligation of its body): for every non-empty name the number of postings of the
+// journal that carry it (the spec functions of the reference search, C09, count the same occurrences).
+//@ bodycheck CollectAccountCounts
+//@   props C12 C16
+//@   requires journal != nil
+//@   ensures [C12,C16:counts_are_posting_occurrences] result != nil && fresh(result) && (forall k string :: {result[k]} k != "" ==> result[k] == cntTxAcc(journal.Transactions, len(journal.Transactions), k))
+//@   loop 1 invariant 0 - 1 <= rangeindex && rangeindex <= len(journal.Transactions) - 1 && counts != nil && fresh(counts)
+//@   loop 1 invariant forall k string :: {counts[k]} {cntTxAcc(journal.Transactions, rangeindex + 1, k)} k != "" ==> counts[k] == cntTxAcc(journal.Transactions, rangeindex + 1, k)
+//@   loop 1 exhaustive
+//@   loop 1 decreases len(journal.Transactions) - rangeindex
+//@   loop 2 invariant 0 - 1 <= rangeindex && rangeindex <= len(tx.Postings) - 1 && counts != nil && fresh(counts)
+//@   loop 2 invariant forall k string :: {counts[k]} {cntAcc(tx.Postings, rangeindex + 1, k)} k != "" ==> counts[k] == atloop(1, counts[k]) + cntAcc(tx.Postings, rangeindex + 1, k)
+//@   loop 2 exhaustive
+//@   loop 2 decreases len(tx.Postings) - rangeindex
 //@ specfun ccJ(j *ast.Journal, k string) int
 //@ trusted CollectCommodityCounts
 //@   ensures result != nil && fresh(result)
 //@   ensures forall k string :: {result[k]} result[k] == ccJ(journal, k)
 //@   ensures forall k string :: {has(result, k)} has(result, k) <==> ccJ(journal, k) > 0
+// What CollectCommodityCounts computes (obligation of its body): for every non-empty symbol the number of amounts and
+// costs of the journal's postings that carry it (balance assertions are not counted by the code: stated as coded).
+//@ specdef cntComUse(ps []ast.Posting, j int, sym string) int := ite(j <= 0, 0, cntComUse(ps, j - 1, sym) + ite(ps[j - 1].Amount != nil && ps[j - 1].Amount.Commodity.Symbol == sym, 1, 0) + ite(ps[j - 1].Cost != nil && ps[j - 1].Cost.Amount.Commodity.Symbol == sym, 1, 0))
+//@ specdef cntTxComUse(ts []ast.Transaction, i int, sym string) int := ite(i <= 0, 0, cntTxComUse(ts, i - 1, sym) + cntComUse(ts[i - 1].Postings, len(ts[i - 1].Postings), sym))
+//@ bodycheck CollectCommodityCounts
+//@   props C12 C16
+//@   requires journal != nil
+//@   ensures [C12,C16:counts_are_amount_and_cost_occurrences] result != nil && fresh(result) && (forall k string :: {result[k]} k != "" ==> result[k] == cntTxComUse(journal.Transactions, len(journal.Transactions), k))
+//@   loop 1 invariant 0 - 1 <= rangeindex && rangeindex <= len(journal.Transactions) - 1 && counts != nil && fresh(counts)
+//@   loop 1 invariant forall k string :: {counts[k]} {cntTxComUse(journal.Transactions, rangeindex + 1, k)} k != "" ==> counts[k] == cntTxComUse(journal.Transactions, rangeindex + 1, k)
+//@   loop 1 exhaustive
+//@   loop 1 decreases len(journal.Transactions) - rangeindex
+//@   loop 2 invariant 0 - 1 <= rangeindex && rangeindex <= len(tx.Postings) - 1 && counts != nil && fresh(counts)
+//@   loop 2 invariant forall k string :: {counts[k]} {cntComUse(tx.Postings, rangeindex + 1, k)} k != "" ==> counts[k] == atloop(1, counts[k]) + cntComUse(tx.Postings, rangeindex + 1, k)
+//@   loop 2 exhaustive
+//@   loop 2 decreases len(tx.Postings) - rangeindex
 //@ specfun tcJ(j *ast.Journal, k string) int
 //@ trusted CollectTagCounts
 //@   ensures result != nil && fresh(result)
